@@ -32,21 +32,21 @@ namespace Dispatcher
 def connectMany (r : Registry) (f : Callable) : List Sig → Registry × List Cid
   | [] => (r, [])
   | k :: ks =>
-    let (r1, c) := r.connect k f
-    let (r2, cs) := connectMany r1 f ks
-    (r2, c :: cs)
+    let r1 := r.connect k f
+    let r2 := connectMany r1.1 f ks
+    (r2.1, r1.2 :: r2.2)
 
 /-- `Dispatcher.subscribe(func, name)` -> (dispatcher, token), `none` = KeyError from `DocumentNames[name]`
     (nothing has been changed at that point). -/
 def subscribe (d : Dispatcher) (f : Callable) (name : Name) : Dispatcher × Option Token :=
   match name with
   | .all =>
-    let (reg, privs) := connectMany d.reg f allKinds
-    ({ reg := reg, counter := d.counter + 1, tokenMap := OD.set d.tokenMap d.counter privs }, some d.counter)
+    let res := connectMany d.reg f allKinds      -- (registry, private_tokens)
+    ({ reg := res.1, counter := d.counter + 1, tokenMap := OD.set d.tokenMap d.counter res.2 }, some d.counter)
   | .one k =>
     if k ∈ allKinds then
-      let (reg, c) := d.reg.connect k f
-      ({ reg := reg, counter := d.counter + 1, tokenMap := OD.set d.tokenMap d.counter [c] }, some d.counter)
+      let res := d.reg.connect k f               -- (registry, private_token)
+      ({ reg := res.1, counter := d.counter + 1, tokenMap := OD.set d.tokenMap d.counter [res.2] }, some d.counter)
     else (d, none)
 
 /-- `Dispatcher.unsubscribe(token)` -/
